@@ -423,7 +423,66 @@ def r_field_table():
     lib.write_gen("FieldTable", "(* GENERATED on every run: every member-level flag vector rendered through the real field classes and templates. *)\nFrom DMCG Require Import FieldSem.\nOpen Scope N_scope.\n\nDefinition field_table : list (N * rend) := [" + body + "].\n")
 
 
+def determinism_tables():
+    """T3 for C08: every for-loop / comprehension in the anchored functions that iterates a set the output order depends on
+    must go through sorted(); and the module-level caches."""
+    import ast
+    import functools
+    import inspect
+    lib.ensure_repo_on_path()
+    import datamodel_code_generator as d
+    from datamodel_code_generator import imports as imp, reference as ref, types as ty
+    from datamodel_code_generator.model import base as mbase
+    from datamodel_code_generator.parser import base as pbase, jsonschema as pj
+
+    sites = []
+
+    def scan(fn, label, set_names):
+        tree = ast.parse(inspect.getsource(fn).lstrip() if False else __import__("textwrap").dedent(inspect.getsource(fn)))
+        for node in ast.walk(tree):
+            iters = []
+            if isinstance(node, ast.For):
+                iters.append(node.iter)
+            elif isinstance(node, (ast.ListComp, ast.GeneratorExp, ast.SetComp, ast.DictComp)):
+                iters += [g.iter for g in node.generators]
+            for it in iters:
+                src = ast.unparse(it)
+                if any(sn in src for sn in set_names):
+                    is_sorted = isinstance(it, ast.Call) and getattr(it.func, "id", None) == "sorted"
+                    sites.append((f"{label}:{node.lineno}", src[:60].replace('"', "'"), is_sorted))
+
+    scan(pj.JsonSchemaParser._resolve_unparsed_json_pointer, "_resolve_unparsed_json_pointer", ["reserved_refs", "reserved_ref"])
+    scan(pj.JsonSchemaParser._parse_file, "_parse_file", ["reserved_refs"])
+    scan(imp.Imports._set_alias, "Imports._set_alias", ["imports"])
+    scan(d.generate, "generate", ["results.items()"])
+    # dict-of-sets emission: Imports.dump iterates self.items() (insertion order of a deterministic append sequence) - listed, not required sorted
+    caches = []
+    for mod in (ref, ty, mbase, pj, imp):
+        for name, obj in vars(mod).items():
+            if isinstance(obj, functools._lru_cache_wrapper):
+                caches.append(f"{mod.__name__.split('.')[-1]}.{name}")
+    for name, obj in vars(imp.Import).items():
+        f = getattr(obj, "__func__", obj)
+        if isinstance(f, functools._lru_cache_wrapper):
+            caches.append(f"imports.Import.{name}")
+    # directory inputs
+    src = inspect.getsource(pbase.Parser.iter_source.fget if isinstance(pbase.Parser.iter_source, property) else pbase.Parser.iter_source)
+    dir_sorted = "sorted(" in src and "rglob" in src
+    return {"sites": sites, "caches": sorted(caches), "dir_sorted": dir_sorted}
+
+
+def r_determinism():
+    t = determinism_tables()
+    S = coq_string
+    out = ["(* GENERATED on every run by /verif/harness/reflect.py (AST of the set-emission sites, lru_cache inventory). *)\nFrom Coq Require Import List String Bool.\nImport ListNotations.\nOpen Scope string_scope.\n"]
+    out.append("Definition set_emission_sites : list (string * string * bool) := [" + "; ".join(f"({S(a)}, {S(b)}, {lib.coq_bool(c)})" for a, b, c in t["sites"]) + "].\n")
+    out.append("Definition lru_caches : list string := [" + "; ".join(S(c) for c in t["caches"]) + "].\n")
+    out.append(f"Definition directory_input_sorted : bool := {lib.coq_bool(t['dir_sorted'])}.\n")
+    lib.write_gen("DeterminismTables", "\n".join(out))
+
+
 REFLECTORS = {
+    "DeterminismTables": r_determinism,
     "FieldTable": r_field_table,
     "AtomicTables": r_atomic,
     "VersionTables": r_version,
